@@ -1,61 +1,152 @@
 (* C19 — the zstd command-line tool never loses or silently damages user data.
    Theorems about the executable models ZV.Cli.{FsModel,FioModel,SparseModel};
-   statements only, proofs in ZV.Cli.{FioProofs,SparseProofs}. *)
+   statements only, proofs in ZV.Cli.{FioProofs,SparseProofs}.
+
+   Quantifiers: i = the invocation (mode, file arguments incl. stdin, -c / -o / -O, -f, the --rm / --keep flags in
+   order, interactive confirmation, -r, --exclude-compressed, -D, --patch-from), ls = directory listings (for -r),
+   s0 = the initial file system (regular files, directories, symbolic links), vs = how the environment behaves on
+   each file: what libzstd produces / reports, and which of fopen / open(O_CREAT) / fwrite / fclose / remove fail. *)
 From Coq Require Import NArith List Bool.
 From ZV.Cli Require Import FsModel FioModel FioSpec SparseModel FioProofs SparseProofs.
 Import ListNotations.
 Local Open Scope N_scope.
 
-(* Killing the process after any number k of operations: every source still holds its
-   bytes, or its destination exists, is closed, and holds bytes that stand for the source. *)
-Theorem crash_safe : forall rel i s0 vs, wf i ->
-  forall src f0, In src (i_srcs i) -> s0 src = Reg f0 -> verdict_sound rel i (f_bytes f0) (vs src) ->
-  forall k, safe rel src (f_bytes f0) (dst_of i src) (run (firstn k (fio_ops i s0 vs)) s0).
+(* Killing the process after any number k of operations, under any combination of injected I/O faults: every
+   source that is a regular file (directly or through a symbolic link) still holds its bytes under its key, or its
+   destination exists, is closed, and holds bytes that stand for the source. *)
+Theorem crash_safe : forall rel i ls s0 vs, wf i (eff_srcs i ls s0) s0 ->
+  forall src f0, In src (eff_srcs i ls s0) -> look s0 src = Reg f0 -> verdict_sound rel i (f_bytes f0) (vs src) ->
+  forall k, safe rel (target s0 src) (f_bytes f0) (dst_of i (eff_srcs i ls s0) src)
+                 (run (firstn k (fio_ops i ls s0 vs)) s0).
 Proof. exact crash_safe_thm. Qed.
 Print Assumptions crash_safe.
 
 (* The same after SIGINT at any point (INThandler removes the registered artefact and exits). *)
-Theorem sigint_safe : forall rel i s0 vs, wf i ->
-  forall src f0, In src (i_srcs i) -> s0 src = Reg f0 -> verdict_sound rel i (f_bytes f0) (vs src) ->
-  forall k, safe rel src (f_bytes f0) (dst_of i src) (run (sigint_ops k (fio_ops i s0 vs)) s0).
+Theorem sigint_safe : forall rel i ls s0 vs, wf i (eff_srcs i ls s0) s0 ->
+  forall src f0, In src (eff_srcs i ls s0) -> look s0 src = Reg f0 -> verdict_sound rel i (f_bytes f0) (vs src) ->
+  forall k, safe rel (target s0 src) (f_bytes f0) (dst_of i (eff_srcs i ls s0) src)
+                 (run (sigint_ops k (fio_ops i ls s0 vs)) s0).
 Proof. exact sigint_safe_thm. Qed.
 Print Assumptions sigint_safe.
 
-(* Without -f (and without an interactive "y"), a pre-existing regular file that is not a source
-   being removed by --rm is never unlinked, truncated or written -- in every intermediate state,
-   also after SIGINT. *)
-Theorem no_clobber : forall i s0 vs p f,
+(* Without -f (and without an interactive "y"), a pre-existing regular file that is not a source being removed by
+   --rm is never unlinked, truncated or written -- whether a destination name is that file or a symbolic link to
+   it -- in every intermediate state, also after SIGINT, under any injected fault. *)
+Theorem no_clobber : forall i ls s0 vs p f,
   i_force i = false -> i_confirm i = false -> s0 p = Reg f ->
-  (~ In p (i_srcs i) \/ eff_rm i = false) ->
-  all_pref (fun s h => s p = Reg f /\ unlinked h s p = Reg f) (fio_ops i s0 vs) s0 None.
+  (~ In p (eff_srcs i ls s0) \/ eff_rm i (eff_srcs i ls s0) = false) ->
+  all_pref (fun s h => s p = Reg f /\ unlinked h s p = Reg f) (fio_ops i ls s0 vs) s0 None.
 Proof. exact no_clobber_thm. Qed.
 Print Assumptions no_clobber.
 
-(* Test mode, stdout output, several inputs into one output: no source is ever removed. *)
-Theorem removeSrc_disabled_when_output_cannot_stand_for_source : forall i s vs,
-  is_test i = true \/ out_stdout i = true \/ is_concat i = true ->
-  Forall (fun o => is_unlink_src o = false) (fio_ops i s vs).
+(* A source is removed only if it is one of the processed names, the last of --rm / --keep is --rm, the mode is not
+   test, the output is neither stdout nor one file for several sources, and the source is not stdin. *)
+Theorem src_removed_only_if : forall i ls s vs q,
+  In (OUnlinkSrc q) (fio_ops i ls s vs) ->
+  In q (eff_srcs i ls s) /\ eff_rm i (eff_srcs i ls s) = true /\ is_concat i (eff_srcs i ls s) = false /\
+  is_stdin q = false.
+Proof. exact src_removed_only_if_thm. Qed.
+Print Assumptions src_removed_only_if.
+
+(* Test mode, stdout output, several inputs into one output, --keep after --rm: no source is ever removed. *)
+Theorem removeSrc_disabled_when_output_cannot_stand_for_source : forall i ls s vs,
+  is_test i = true \/ out_stdout i (eff_srcs i ls s) = true \/ is_concat i (eff_srcs i ls s) = true \/
+  last_flag (i_rmk i) = false ->
+  Forall (fun o => is_unlink_src o = false) (fio_ops i ls s vs).
 Proof. exact removeSrc_disabled_thm. Qed.
 Print Assumptions removeSrc_disabled_when_output_cannot_stand_for_source.
 
-(* One source, one destination file: exit status 0 comes with the complete closed output of a
-   successful codec run; otherwise the status is 1 and no output file of this run is left. *)
-Theorem failure_leaves_no_artefact : forall i s vs src d,
-  i_srcs i = [src] -> dst_of i src = Some d -> src <> d ->
-  (forall n, snd (codec i (DOwn d) (vs src)) <> Throw n) ->
-  let ops := fio_ops i s vs in
+(* One source, one destination file, any fault except a failing remove() of the artefact itself: exit status 0 comes
+   with the complete closed output (or with a source skipped by --exclude-compressed); every other run ends with a
+   non-zero status and no output file of this run -- a write error (EXM_THROW) included -- unless the failure is
+   reported after the destination was completed (fclose / remove of the source failed), and then the source is kept. *)
+Theorem failure_leaves_no_artefact : forall i ls s vs src d,
+  eff_srcs i ls s = [src] -> dst_of i [src] src = Some d -> src <> d -> is_lnk (s d) = false ->
+  v_art_unlink_ok (vs src) = true -> snd (codec i (DOwn d) (vs src)) <> Throw 0 ->
+  let ops := fio_ops i ls s vs in
   (exit_code ops = Some 0 /\
-   exists chunks, codec i (DOwn d) (vs src) = (chunks, Ret0) /\ run ops s d = Reg (mkFile (concat chunks) true)) \/
-  (exit_code ops = Some 1 /\
-   (run ops s d = Absent \/ Forall (fun o => modifies o = None) ops)).
+   ((exists chunks, codec i (DOwn d) (vs src) = (chunks, Ret0) /\ run ops s d = Reg (mkFile (concat chunks) true)) \/
+    (Forall nomod ops /\ i_excl i = true))) \/
+  (exists n, n <> 0 /\ exit_code ops = Some n /\
+     (run ops s d = Absent \/ Forall nomod ops \/
+      (exists chunks, codec i (DOwn d) (vs src) = (chunks, Ret0) /\
+                      run ops s d = Reg (mkFile (concat chunks) true) /\ run ops s src = s src))).
 Proof. exact failure_leaves_no_artefact_thm. Qed.
 Print Assumptions failure_leaves_no_artefact.
 
-Theorem same_file_refused : forall i rm s src v ops r,
-  file_ops i rm s src (DOwn src) v = (ops, r) ->
-  r = FFail /\ Forall (fun o => modifies o = None) ops.
+(* Source and destination are the same file, also when one is a symbolic link to the other: refused, nothing is
+   created, removed or written. *)
+Theorem same_file_refused : forall i rm s src dst v ops r,
+  same_file s src dst = true ->
+  file_ops i rm s src (DOwn dst) v = (ops, r) ->
+  Forall nomod ops /\ (r = FFail \/ (r = FOk /\ i_excl i = true)).
 Proof. exact same_file_refused_thm. Qed.
 Print Assumptions same_file_refused.
+
+(* -f over a destination name that is a symbolic link to a regular file: the link is unlinked and a new file is
+   created under the link's name; no operation names the link's target. *)
+Theorem overwrite_replaces_link : forall s v osrc p q f m oo t,
+  s p = Lnk q -> s q = Reg f -> v_ovw_unlink_ok v = true ->
+  open_dst true s v osrc p m = (oo, Some t) ->
+  oo = [OUnlinkDst p; OCreat p m] /\ t = p.
+Proof. exact overwrite_replaces_link_thm. Qed.
+Print Assumptions overwrite_replaces_link.
+
+(* -t and -c (and a lone stdin source): no file is created, written, closed or removed, whatever --rm, -f, the
+   inputs (multi-frame, corrupted, garbage) and the faults are. *)
+Theorem test_and_stdout_modify_nothing : forall i ls s vs,
+  is_test i = true \/ out_stdout i (eff_srcs i ls s) = true ->
+  Forall nomod (fio_ops i ls s vs).
+Proof. exact test_and_stdout_modify_nothing_thm. Qed.
+Print Assumptions test_and_stdout_modify_nothing.
+
+(* A missing (31), non-regular (32) or unreadable (33) dictionary / --patch-from reference ends the run with that
+   status before any source or destination is touched. *)
+Theorem dict_failure_touches_nothing : forall i ls s vs names n,
+  pre i ls s = inr names -> dict_check i s vs = Some n ->
+  fio_ops i ls s vs = [OExit n] /\ n <> 0.
+Proof. exact dict_failure_touches_nothing_thm. Qed.
+Print Assumptions dict_failure_touches_nothing.
+
+(* zstd -d of one source into its own destination, with or without -f and --rm, no injected fault: the destination
+   is exactly the payload of the frames and the status is 0 iff the input is non-empty and every frame (skippable
+   ones included) decodes with nothing after the last one; only then does --rm remove the source. In every other
+   case the status is 1, no output is left and the source is untouched. *)
+Theorem decompress_outcome : forall i ls s vs src d f,
+  i_mode i = Decompress -> eff_srcs i ls s = [src] -> dst_of i [src] src = Some d -> src <> d ->
+  s src = Reg f -> is_stdin src = false -> no_fault (vs src) -> dict_check i s vs = None ->
+  (s d = Absent \/ (exists fd, s d = Reg fd) /\ ovw i = true) -> parent d = None ->
+  let ops := fio_ops i ls s vs in
+  let items := v_items (vs src) in
+  if negb (is_nil items) && forallb is_ok_item items then
+    exit_code ops = Some 0 /\ run ops s d = Reg (mkFile (concat (ok_payload items)) true) /\
+    run ops s src = (if eff_rm i [src] then Absent else s src)
+  else
+    exit_code ops = Some 1 /\ run ops s d = Absent /\ run ops s src = s src.
+Proof. exact decompress_outcome_thm. Qed.
+Print Assumptions decompress_outcome.
+
+(* Several sources, each with its own destination (default names, -O, -r), any faults: the final state of a regular
+   source and of its destination is decided by its own segment alone, whatever happens to the sources processed
+   before and after it (one that fails in the middle included): untouched, or destination complete (source kept or
+   removed), or destination absent and source kept. Exit status 0 implies that every such destination is complete
+   (or its source was skipped by --exclude-compressed): any failure anywhere shows in the status. *)
+Theorem per_source_outcome : forall i ls s0 vs,
+  wf i (eff_srcs i ls s0) s0 -> is_concat i (eff_srcs i ls s0) = false ->
+  dict_check i s0 vs = None -> (forall p, v_out (vs p) <> Throw 0) ->
+  forall src d f0, In src (eff_srcs i ls s0) -> dst_of i (eff_srcs i ls s0) src = Some d -> s0 src = Reg f0 ->
+  v_art_unlink_ok (vs src) = true ->
+  let ops := fio_ops i ls s0 vs in
+  let fin := run ops s0 in
+  ( (fin src = s0 src /\ fin d = s0 d) \/
+    (exists chunks, codec i (DOwn d) (vs src) = (chunks, Ret0) /\ fin d = Reg (mkFile (concat chunks) true) /\
+                    (fin src = s0 src \/ fin src = Absent)) \/
+    (fin d = Absent /\ fin src = s0 src) ) /\
+  (exit_code ops = Some 0 ->
+     (exists chunks, codec i (DOwn d) (vs src) = (chunks, Ret0) /\ fin d = Reg (mkFile (concat chunks) true)) \/
+     (i_excl i = true /\ fin src = s0 src /\ fin d = s0 d)).
+Proof. exact per_source_outcome_thm. Qed.
+Print Assumptions per_source_outcome.
 
 (* FIO_decompressFrames: status 0 iff the input is non-empty, every frame decodes and nothing
    else follows; the status is never anything but 0 or 1. *)
@@ -81,3 +172,35 @@ Theorem sparse_equiv : forall frames,
     = s_data (s_run (concat (map plain_ops frames)) empty_file).
 Proof. exact sparse_equiv_thm. Qed.
 Print Assumptions sparse_equiv.
+
+(* With write jobs of at most 1 GB the `unsigned storedSkips` accumulator stays below 3 GB < 2^32 between the jobs of a
+   frame: the arithmetic mod 2^32 (written explicitly in the model) never wraps, however long the zero run is. *)
+Theorem sparse_skips_bounded : forall chunks sk f c,
+  Inv f sk c -> sk <= SK_MAX -> (forall ch, In ch chunks -> len ch <= GB1) ->
+  Forall (fun x => x <= SK_MAX /\ x < M32) (skips_trace chunks sk).
+Proof. exact sparse_skips_bounded_thm. Qed.
+Print Assumptions sparse_skips_bounded.
+
+(* A zero run of n GB for ANY n (beyond 4 GiB = the range of storedSkips), written in 1 GB jobs and followed by a last
+   job: the file is n GB of zeros followed by that job's bytes. *)
+Theorem sparse_equiv_over_4GiB : forall (n : nat) tail,
+  len tail <= GB1 ->
+  s_data (s_run (sparse_frames_ops [repeat (zeros GB1) n ++ [tail]]) empty_file) = zeros (N.of_nat n * GB1) ++ tail.
+Proof. exact sparse_equiv_over_4GiB_thm. Qed.
+Print Assumptions sparse_equiv_over_4GiB.
+
+(* Whatever prefs->sparseFileSupport is (--sparse, --no-sparse, automatic, stdout, compression), the bytes are the same. *)
+Theorem sparse_setting_irrelevant : forall v frames,
+  (forall fr ch, In fr frames -> In ch fr -> len ch <= GB1) ->
+  s_data (s_run (dst_writer_ops v frames) empty_file) = concat (map (@concat N) frames).
+Proof. exact sparse_setting_irrelevant_thm. Qed.
+Print Assumptions sparse_setting_irrelevant.
+
+(* zstdcli.c / FIO_openDstFile: compression and --no-sparse never seek; --sparse is never switched off (stdout included);
+   the automatic setting is switched off by stdout and by a destination that did not pre-exist as a regular file. *)
+Theorem sparse_setting :
+  (forall a, sparse_init true a = 0) /\
+  (forall so r, sparse_open 0 so r = 0) /\ (forall so r, sparse_open 2 so r = 2) /\
+  (forall r, sparse_open 1 true r = 0) /\ sparse_open 1 false true = 1 /\ sparse_open 1 false false = 0.
+Proof. exact sparse_setting_thm. Qed.
+Print Assumptions sparse_setting.
